@@ -1,1 +1,157 @@
-Theorem placeholder : True. Proof. exact I. Qed.
+(** C11 — KSTest / IncrementalKSTest: the statistic is sup|F_ref - F_test|, the exact p-value is
+    the fraction of interleavings at least as extreme, and the incremental detector reports at
+    every step what the batch test gives for the reference and the last window_size values.
+    Model: Model/KS.v (H = n m D, lattice-path DP), Model/IKS.v (ring buffer, storage order).
+    Proofs: Proofs/KSPaths.v, Proofs/IKSR.v.
+    Regime above 10 000 values: the model reports H and leaves the asymptotic p-value
+    (scipy kstwo.sf) to an oracle ([None] in the fraction slot); the batch/incremental agreement
+    below covers that regime too because it is stated on the whole result pair. *)
+From Coq Require Import ZArith List Bool Reals Permutation.
+From FV Require Import NumSys RealA Py Sums Queue KS IKS QueueRef KSPaths IKSR.
+Import ListNotations.
+Local Open Scope Z_scope.
+
+(* ------------------------------------------------------------------ (a) the statistic *)
+
+(** For every real threshold z, |#{x<=z} m - #{y<=z} n| <= H: dividing by n m,
+    |F_X(z) - F_Y(z)| <= D = H / (n m) ... *)
+Theorem C11_statistic_is_sup : forall (X Y : list R) (z : R),
+  Z.abs (count_le (A:=RealA) z X * len Y - count_le (A:=RealA) z Y * len X) <= ks_H (A:=RealA) X Y.
+Proof. exact ks_H_sup. Qed.
+Print Assumptions C11_statistic_is_sup.
+
+(** ... and the bound is attained at a sample point: D is the supremum. *)
+Theorem C11_statistic_attained : forall (X Y : list R), X ++ Y <> [] ->
+  exists z, In z (X ++ Y) /\
+    ks_H (A:=RealA) X Y = Z.abs (count_le (A:=RealA) z X * len Y - count_le (A:=RealA) z Y * len X).
+Proof. exact ks_H_attained. Qed.
+Print Assumptions C11_statistic_attained.
+
+Theorem C11_statistic_bounds : forall (A : Arith) (X Y : list (NumSys.num A)), 0 <= ks_H X Y <= len X * len Y.
+Proof. exact ks_H_bounds. Qed.
+
+Theorem C11_statistic_order_free : forall (A : Arith) (X X' Y Y' : list (NumSys.num A)),
+  Permutation X X' -> Permutation Y Y' -> ks_H X Y = ks_H X' Y'.
+Proof. exact ks_H_perm. Qed.
+
+(* ------------------------------------------------------------------ (b) the exact p-value *)
+
+(** [words n m] lists every 0/1 word with n ones and m zeros exactly once ... *)
+Theorem C11_words_are_the_interleavings : forall n m w,
+  In w (words n m) <-> count_occ bool_dec w true = n /\ count_occ bool_dec w false = m.
+Proof. exact words_spec. Qed.
+Theorem C11_words_distinct : forall n m, NoDup (words n m).
+Proof. exact words_NoDup. Qed.
+(** ... so there are C(n+m, n) of them. *)
+Theorem C11_words_count : forall n m : nat, (length (words n m) * fact n * fact m = fact (n + m))%nat.
+Proof. exact words_binomial. Qed.
+Print Assumptions C11_words_count.
+
+(** The DP of the model counts the interleavings staying strictly inside the band. *)
+Theorem C11_dp_is_enumeration : forall (n m : nat) (H : Z),
+  paths_inside (Z.of_nat n) (Z.of_nat m) H =
+  Z.of_nat (length (filter (inside (Z.of_nat n) (Z.of_nat m) H) (words n m))).
+Proof. exact ks_dp_is_enumeration. Qed.
+Print Assumptions C11_dp_is_enumeration.
+
+(** For tie-free samples: the observed pair is one of the interleavings, the observed H is the
+    statistic [word_max] of that interleaving, and the model's p-value is
+    #{w : word_max w >= H} / #{all w}  =  P(D >= d) under equally likely interleavings. *)
+Theorem C11_pvalue_is_enumeration : forall X Y : list R, NoDup (X ++ Y) ->
+  let n := length X in let m := length Y in
+  In (merge_word X Y) (words n m) /\
+  ks_H (A:=RealA) X Y = word_max (Z.of_nat n) (Z.of_nat m) (merge_word X Y) /\
+  ks_p_frac (A:=RealA) X Y =
+    (Z.of_nat (length (filter (fun w => ks_H (A:=RealA) X Y <=? word_max (Z.of_nat n) (Z.of_nat m) w) (words n m))),
+     Z.of_nat (length (words n m))).
+Proof. exact ks_pvalue_is_enumeration. Qed.
+Print Assumptions C11_pvalue_is_enumeration.
+
+(** With ties the same counting formula holds for the H of the tied samples (every number system). *)
+Theorem C11_pvalue_fraction : forall (A : Arith) (X Y : list (NumSys.num A)),
+  ks_p_frac X Y =
+  (Z.of_nat (length (filter (fun w => ks_H X Y <=? word_max (len X) (len Y) w) (words (length X) (length Y)))),
+   Z.of_nat (length (words (length X) (length Y)))).
+Proof. exact ks_p_frac_is_fraction. Qed.
+
+(** 0 <= p <= 1 (repaired code, finding F18) *)
+Theorem C11_pvalue_range : forall (A : Arith) (X Y : list (NumSys.num A)),
+  0 <= fst (ks_p_frac X Y) <= snd (ks_p_frac X Y) /\ 0 < snd (ks_p_frac X Y).
+Proof. exact ks_p_frac_range. Qed.
+Print Assumptions C11_pvalue_range.
+
+(* ------------------------------------------------------------------ (c) incremental = batch *)
+
+(** fit, then any stream: no update raises; output k is [None] while fewer than [w] values have
+    arrived, afterwards [Some (ks_test ref (last w values))].  [iks_spec_outs] / [iks_spec_out]
+    are defined in Proofs/IKSR.v and unfolded by the next two theorems. *)
+Theorem C11_iks_is_batch : forall (A : Arith) (ref : list (NumSys.num A)) (w : Z) (vs : list (NumSys.num A)), 1 <= w ->
+  exists s', iks_run (iks_fit (iks_init w) ref) vs = Ok (s', iks_spec_outs ref w [] vs).
+Proof. exact (@iks_is_batch). Qed.
+Print Assumptions C11_iks_is_batch.
+
+Theorem C11_iks_outputs_unfold : forall (A : Arith) (ref : list (NumSys.num A)) w vs k, (k < length vs)%nat ->
+  nth k (iks_spec_outs ref w [] vs) None =
+  (if Z.of_nat (length (firstn (S k) vs)) <? w then None
+   else Some (ks_test ref (lastn (Z.to_nat w) (firstn (S k) vs)))).
+Proof. exact (@iks_spec_outs_unfold). Qed.
+
+Theorem C11_iks_is_batch_last : forall (A : Arith) (ref : list (NumSys.num A)) (w : Z) (vs : list (NumSys.num A)) (v : NumSys.num A),
+  1 <= w ->
+  exists s ss s', iks_run (iks_fit (iks_init w) ref) vs = Ok (s, ss) /\
+    iks_update s v = Ok (s',
+      if Z.of_nat (length (vs ++ [v])) <? w then None
+      else Some (ks_test ref (lastn (Z.to_nat w) (vs ++ [v])))).
+Proof. exact (@iks_is_batch_last). Qed.
+Print Assumptions C11_iks_is_batch_last.
+
+(** the window is handed over in storage order; the result does not depend on the order *)
+Theorem C11_batch_order_free : forall (A : Arith) (ref X X' : list (NumSys.num A)),
+  Permutation X X' -> ks_test ref X = ks_test ref X'.
+Proof. exact (@ks_test_perm). Qed.
+
+(* ------------------------------------------------------------------ (d) totality *)
+
+(** After any history of fit / update / reset calls (window_size >= 1): update raises
+    MissingFitError exactly when no reference is fitted, otherwise it succeeds with the batch
+    result for the reference and the last [w] values accepted since the last reset. *)
+Theorem C11_iks_total : forall (A : Arith) (w : Z) (ops : list iop) (v : NumSys.num A), 1 <= w ->
+  let s := iks_exec w ops in
+  match fst (iks_hist ops) with
+  | None => iks_update s v = Raise MissingFitError
+  | Some ref => exists s', iks_update s v = Ok (s', iks_spec_out ref w (snd (iks_hist ops) ++ [v]))
+  end.
+Proof. exact (@iks_total). Qed.
+Print Assumptions C11_iks_total.
+
+Theorem C11_iks_before_fit : forall (A : Arith) (w : Z) (v : NumSys.num A),
+  iks_update (iks_init w) v = Raise MissingFitError.
+Proof. exact (@iks_before_fit). Qed.
+Theorem C11_iks_after_reset : forall (A : Arith) (s : iks_st A) (v : NumSys.num A),
+  iks_update (iks_reset s) v = Raise MissingFitError.
+Proof. exact (@iks_after_reset). Qed.
+Theorem C11_iks_fitted_never_raises : forall (A : Arith) w ops X (v : NumSys.num A), 1 <= w ->
+  exists s' o, iks_update (iks_fit (iks_exec w ops) X) v = Ok (s', o).
+Proof. exact (@iks_fitted_never_raises). Qed.
+
+(* ------------------------------------------------------------------ non-vacuity *)
+From Coq Require Import PrimFloat.
+From FV Require Import FloatA.
+
+(** reference of 4, window of 3, five updates: the ring wraps (storage order 8, 0, 6 differs
+    from arrival order 6, 8, 0), outputs are None, None and then the batch results out of
+    C(7,3) = 35 interleavings *)
+Example C11_nonvacuous :
+  let ref := [1%float; 3%float; 5%float; 7%float] in
+  match iks_run (A:=FloatA) (iks_fit (iks_init 3) ref) [2%float; 4%float; 6%float; 8%float; 0%float] with
+  | Ok (s, outs) => (storage (ik_q s), outs)
+  | Raise _ => ([], [])
+  end =
+  ([8%float; 0%float; 6%float],
+   [None; None; Some (3, Some (35, 35)); Some (6, Some (23, 35)); Some (5, Some (31, 35))])
+  /\ ks_test (A:=FloatA) ref [6%float; 8%float; 0%float] = (5, Some (31, 35)).
+Proof. vm_compute. split; reflexivity. Qed.
+
+Example C11_nonvacuous_unfitted :
+  iks_update (A:=FloatA) (iks_init 3) 1%float = Raise MissingFitError.
+Proof. reflexivity. Qed.
